@@ -97,7 +97,8 @@ where
             }
         }
 
-        // Compare in periodic cells
+        // Compare in periodic cells. This loop finds each interaction with a periodic image from
+        // the perspective of both shapes, so each contributes half the energy of the pair.
         for shape1 in self.cartesian_positions().map(|p| self.shape.transform(&p)) {
             for position in self.relative_positions() {
                 for shape2 in self
@@ -105,7 +106,7 @@ where
                     .periodic_images(position, 3, false)
                     .map(|p| self.shape.transform(&p))
                 {
-                    sum += shape1.energy(&shape2);
+                    sum += 0.5 * shape1.energy(&shape2);
                 }
             }
         }
